@@ -6,7 +6,7 @@ import json, sys
 CHECKS = {
  "C12": ("fault_enumeration",
          "runtime fault injection through harness-supplied writer / reader / fetcher / registry client / finders at every position, with return-value, recovered-panic, directory-copy (crash point) and diagnostic-content oracles",
-         "Every single failure position is enumerated per stream or build: each write offset of Pack's writer (error required), each read offset of Unpack's reader as error and as clean EOF (success only with the complete tree), 16 Unpack policy refusals and 7 Pack policy refusals, incl. cycles found one and two dereferenced directories down (must be IllegalSlugError), each fetcher / registry / finder call of generated builds in all applicable fault modes (plain errors, errors after partial content, errors wrapping context.DeadlineExceeded / Canceled, error and warning diagnostics; all pairs in the thorough tier), each faulted build under a call budget of 4x the fault-free build: error diagnostic from the Add call that ran it, all Builder methods refuse afterwards - also the retried calls of the failed build -, no Bundle, directory does not open; warnings and errors of finders reach caller and tracer intact with file names rewritten, and after a mere warning the bundle is the whole closure; the target directory is copied and opened at every callback entry and exit; read-only target directory at every position as an unprivileged user. Round 6/7: every Add call brings its own tracer and a finder diagnostic must reach the tracer of the call that ran the finder; finder diagnostics without any source range (warning and error); package addresses with query strings in half of the worlds.",
+         "Every single failure position is enumerated per stream or build: each write offset of Pack's writer (error required), each read offset of Unpack's reader as error and as clean EOF (success only with the complete tree), 16 Unpack policy refusals and 7 Pack policy refusals, incl. cycles found one and two dereferenced directories down (must be IllegalSlugError), each fetcher / registry / finder call of generated builds in all applicable fault modes (plain errors, errors after partial content, errors wrapping context.DeadlineExceeded / Canceled, error and warning diagnostics; all pairs in the thorough tier), each faulted build under a call budget of 4x the fault-free build: error diagnostic from the Add call that ran it, all Builder methods refuse afterwards - also the retried calls of the failed build -, no Bundle, directory does not open; warnings and errors of finders reach caller and tracer intact with file names rewritten, and after a mere warning the bundle is the whole closure; the target directory is copied and opened at every callback entry and exit; read-only target directory at every position as an unprivileged user. Round 6/7: every Add call brings its own tracer and a finder diagnostic must reach the tracer of the call that ran the finder; finder diagnostics without any source range (warning and error); package addresses with query strings in half of the worlds. Round 8: every single-fault build is repeated with a warning from every finder run, alternately without a tracer; each warning must come back from some Add call with its file name rewritten.",
          "Faults are injected at the public boundary only; failures inside go-slug's own filesystem calls are reached through the read-only-directory phase, not per syscall (the strace injector of the design was not built).",
          "DESIGN.md §5 C12"),
  "C13": ("exploration",
@@ -16,12 +16,12 @@ CHECKS = {
          "DESIGN.md §5 C13"),
  "C09": ("exploration",
          "runtime monitor: full accessor sweep and directory-tree comparison of Close() vs OpenDir() vs ExtractArchive(WriteArchive())",
-         "Bundles built from worlds with odd addresses, aliases, several registry versions, deprecations, metadata and packages with links, empty directories, odd modes and odd names are re-opened and sent through WriteArchive/ExtractArchive; a sweep over every accessor (incl. all lookups relative to the root and SourceForLocalPath of every path) must print identically for all three (and twice for the first), and the extracted tree must equal the built one. A directed exhaustive phase (48 worlds) covers registry versions that differ only in build metadata; successive bundles of one worker process are built and extracted at different locations. Round 6/7: names beginning with two dots, files without the owner's read bit, and in half of the worlds an archive written after an earlier attempt on the same Bundle broke off.",
+         "Bundles built from worlds with odd addresses, aliases, several registry versions, deprecations, metadata and packages with links, empty directories, odd modes and odd names are re-opened and sent through WriteArchive/ExtractArchive; a sweep over every accessor (incl. all lookups relative to the root and SourceForLocalPath of every path) must print identically for all three (and twice for the first), and the extracted tree must equal the built one. A directed exhaustive phase (48 worlds) covers registry versions that differ only in build metadata; successive bundles of one worker process are built and extracted at different locations. Round 6/7: names beginning with two dots, files without the owner's read bit, and in half of the worlds an archive written after an earlier attempt on the same Bundle broke off. Round 8: names with a back-slash; in two thirds of the worlds the archive reaches ExtractArchive 1 or 3 bytes per Read, or after an empty Read.",
          "Modification times are not compared.",
          "DESIGN.md §5 C09"),
  "C10": ("exploration",
          "runtime monitor: physical link resolution and reference ignore verdicts over every package directory of the finished bundle; independent expectation of which fetched trees must fail; snapshot diff around the target directory; exhaustive offender shapes x positions and ordered pairs",
-         "39 shapes (clean and offending links, links led outside by another link, special files, offenders hidden or created by ignore rules, a rule file without final newline) are planted at each of 3 positions of a dependency graph, and all ordered pairs in two packages. The harness materialises the fetched tree itself, removes reference-excluded paths and resolves the remaining links physically to decide whether the build must fail; successful bundles are walked with the physical resolver and the reference matcher; nothing outside the target directory may change. Round 6/7: 42 shapes incl. non-ASCII rules and a linked rule file; half of the cases reach the bundle through a symlink; a further exhaustive phase runs every shape after, in the same process, a package whose rule file begins with a negation was built, and a directory selected by a directory rule (no negation in the file) must be gone entirely.",
+         "39 shapes (clean and offending links, links led outside by another link, special files, offenders hidden or created by ignore rules, a rule file without final newline) are planted at each of 3 positions of a dependency graph, and all ordered pairs in two packages. The harness materialises the fetched tree itself, removes reference-excluded paths and resolves the remaining links physically to decide whether the build must fail; successful bundles are walked with the physical resolver and the reference matcher; nothing outside the target directory may change. Round 6/7: 42 shapes incl. non-ASCII rules and a linked rule file; half of the cases reach the bundle through a symlink; a further exhaustive phase runs every shape after, in the same process, a package whose rule file begins with a negation was built, and a directory selected by a directory rule (no negation in the file) must be gone entirely. Round 8: 44 shapes (absolute links into the directory the package is being fetched into) in a world of five packages (clean bystanders before and after the planted package, one package asked for by two module locations); /tmp and the working directory lie inside the observed arena.",
          "Links to in-package directories are outside the universe.",
          "DESIGN.md §5 C10"),
  "C18": ("exploration",
@@ -36,7 +36,7 @@ CHECKS = {
          "DESIGN.md §5 C08"),
  "C14": ("exploration",
          "offline checker over the recorded callback + BuildTracer event log: exactly-once counting against the reference closure and a per-key bracket automaton; logical termination bound",
-         "Same worlds as C08. All fetcher/registry/finder calls and trace events go to one sequence-numbered log; the checker requires exactly one fetch per closure package (none outside), one version-list request per registry package, one source-address request per selected version, finder runs equal to the number of distinct closure addresses per (content, sub-path, finder), and start->(success|failure)->already* per key. A build exceeding 4x the closure's callback count is aborted and reported as non-terminating. A further phase fails every callback position of generated worlds in turn and runs the bracket automaton over the faulted build's log (failure answers a start; 'already' only after a success). Round 6: every start callback of the harness tracer returns a context with a fresh span token and the end event must arrive on that context.",
+         "Same worlds as C08. All fetcher/registry/finder calls and trace events go to one sequence-numbered log; the checker requires exactly one fetch per closure package (none outside), one version-list request per registry package, one source-address request per selected version, finder runs equal to the number of distinct closure addresses per (content, sub-path, finder), and start->(success|failure)->already* per key. A build exceeding 4x the closure's callback count is aborted and reported as non-terminating. A further phase fails every callback position of generated worlds in turn and runs the bracket automaton over the faulted build's log (failure answers a start; 'already' only after a success). Round 6: every start callback of the harness tracer returns a context with a fresh span token and the end event must arrive on that context. Round 8: the watchdog that reports a build that never ends consults the kernel's scheduling accounting (spinning / blocked = hang; starved = inconclusive).",
          "Order of events is unconstrained; the counting clauses are checked on fault-free worlds only, the trace clauses also under single faults.",
          "DESIGN.md §5 C14"),
  "C17": ("exploration",
@@ -46,7 +46,7 @@ CHECKS = {
          "DESIGN.md §5 C17"),
  "C16": ("exploration",
          "runtime differential monitor (decoded slug vs baseline) over spellings / working directories / symlinked roots / call histories, and the Go race detector over concurrent Pack calls",
-         "For every generated tree and option set the decoded entry list of Pack by the absolute clean path is compared with the lists obtained under 23 variations of spelling, working directory, route through symlinks and preceding calls; concurrent rounds (fresh race-instrumented process each, 8-16 goroutines behind a barrier, default-rule and negation-first rule files mixed) compare every output with a solo run and treat any race-detector report as a violation. Round 6/7: 27 variations incl. a symlinked parent that pointed elsewhere at an earlier Pack and a root link with '..' in its target reached through a symlinked directory; in the unshared concurrent rounds every other goroutine uses the package-level Pack with alternating dereference flag.",
+         "For every generated tree and option set the decoded entry list of Pack by the absolute clean path is compared with the lists obtained under 23 variations of spelling, working directory, route through symlinks and preceding calls; concurrent rounds (fresh race-instrumented process each, 8-16 goroutines behind a barrier, default-rule and negation-first rule files mixed) compare every output with a solo run and treat any race-detector report as a violation. Round 6/7: 27 variations incl. a symlinked parent that pointed elsewhere at an earlier Pack and a root link with '..' in its target reached through a symlinked directory; in the unshared concurrent rounds every other goroutine uses the package-level Pack with alternating dereference flag. Round 8: a third of the variation cases carry a link that only a relative AllowSymlinkTarget entry permits.",
          "Interleavings are those the scheduler produced; the baseline is produced by the same code in the same process.",
          "DESIGN.md §5 C16"),
  "C03": ("exploration",
@@ -66,12 +66,12 @@ CHECKS = {
          "DESIGN.md §5 C02"),
  "C05": ("exploration",
          "runtime monitor: independent decode of the produced slug compared with the tree description and the physical target of every link; Unpack of the result; exhaustive link shapes x option sets",
-         "A world with a prefix-sharing sibling and canary-filled outside area gets links of 41 shapes at 3 depths (incl. links that stay inside as written but are led outside by another link); each is packed under {dereference} x {ignore} x 5 allow-lists (exhaustive for single links, PRNG for combinations). The slug is decoded with archive/tar and every entry is checked: no canary without dereferencing, no out-of-tree or root-climbing link stored without allow-list, refusal is an IllegalSlugError, dereferenced content equals the physical target, and Unpack accepts slugs from all-relative trees.",
+         "A world with a prefix-sharing sibling and canary-filled outside area gets links of 41 shapes at 3 depths (incl. links that stay inside as written but are led outside by another link); each is packed under {dereference} x {ignore} x 5 allow-lists (exhaustive for single links, PRNG for combinations). The slug is decoded with archive/tar and every entry is checked: no canary without dereferencing, no out-of-tree or root-climbing link stored without allow-list, refusal is an IllegalSlugError, dereferenced content equals the physical target, and Unpack accepts slugs from all-relative trees. Round 8: 46 shapes incl. absolute targets spelled with dot segments, repeated separators and detours.",
          "Out-of-tree is decided component-wise on the place the target names; absolute in-tree links may be stored as links (pinned by the repository's tests).",
          "DESIGN.md §5 C05"),
  "C20": ("exploration",
          "runtime monitor: Meta.Files / Meta.Size vs an independent archive/tar decode of every slug produced by the C02 and C05 workloads",
-         "Every successful Pack over the C02 trees and the C05 link worlds (dereferenced files and directories, ignored subtrees, allow-lists, empty trees) is decoded independently; Meta.Files must equal the header names in order, Meta.Size must equal the content bytes read back for regular entries and the sum of their header sizes.",
+         "Every successful Pack over the C02 trees and the C05 link worlds (dereferenced files and directories, ignored subtrees, allow-lists, empty trees) is decoded independently; Meta.Files must equal the header names in order, Meta.Size must equal the content bytes read back for regular entries and the sum of their header sizes. Round 8: exhaustive phase with hard-linked files (4 trees x 4 option sets).",
          "No claim when Pack fails (a further exhaustive phase shrinks, grows, removes or replaces a file while Pack is reading the tree: when Pack still returns a Meta it must describe the slug).",
          "DESIGN.md §5 C20"),
  "C01": ("exploration",
@@ -91,12 +91,12 @@ CHECKS = {
          "DESIGN.md §5 C06"),
  "C07": ("exploration",
          "runtime policy predicate over accessors of every accepted remote address; grammar must-accept; exhaustive single-rule-violation table; constructor tampering",
-         "An independent policy predicate (type, scheme, userinfo, query arguments, archive form, sub-path segments) is evaluated on every remote address accepted by any route (4 string parsers and MakeRemoteSource) over grammar strings (which must be accepted), an exhaustive table of single-rule violations x spellings (which must be rejected), mutated/arbitrary strings, the strings kept by coverage-guided fuzzing campaigns, percent-encoded and case-varied spellings of the archive / checksum / ref arguments, and (type,URL,sub-path) triples with one tampered part. Round 6: a constructor tamper with a stale RawPath and a phase giving one URL to the constructor under two source types.",
+         "An independent policy predicate (type, scheme, userinfo, query arguments, archive form, sub-path segments) is evaluated on every remote address accepted by any route (4 string parsers and MakeRemoteSource) over grammar strings (which must be accepted), an exhaustive table of single-rule violations x spellings (which must be rejected), mutated/arbitrary strings, the strings kept by coverage-guided fuzzing campaigns, percent-encoded and case-varied spellings of the archive / checksum / ref arguments, and (type,URL,sub-path) triples with one tampered part. Round 6: a constructor tamper with a stale RawPath and a phase giving one URL to the constructor under two source types. Round 8: special arguments whose name is percent-encoded on paths that already end in .tgz / .tar.gz.",
          "The predicate in props/c07.go is the reading of the documented policy; must-accept is limited to documented forms.",
          "DESIGN.md §5 C07"),
  "C19": ("exploration",
          "watched worker processes: recovered panics, process death (stack exhaustion, fatal errors) and a per-case watchdog, over hostile inputs to every entry point",
-         "Inputs: valid-UTF-8 strings (grammar, mutations, random runes) through all eight address parsers and the printing methods; tar streams with structured header mutations and repaired checksums, truncations, bit flips, random bytes, concatenated members through Unpack; generated / mutated / random manifest documents through OpenDir and the lookups; 24 trees with link cycles inside and outside the tree, directories linking to themselves / their parents / each other, links to fifos and sockets, odd names, deep nesting, rule files that are directories / dangling links / fifos, and 66 degenerate rule lines at every position of a rule file, through Pack (all option sets) and a one-package bundle build. Inputs kept by coverage-guided fuzzing campaigns are replayed first in the parser and OpenDir phases; thorough adds native go test -fuzz runs (4e6 / 8e4 / 1.5e5 executions) of the parser, Unpack and OpenDir targets. A recovered panic, a dead worker (attributed to the case in progress) or a case without progress for the watchdog period is a violation.",
+         "Inputs: valid-UTF-8 strings (grammar, mutations, random runes) through all eight address parsers and the printing methods; tar streams with structured header mutations and repaired checksums, truncations, bit flips, random bytes, concatenated members through Unpack; generated / mutated / random manifest documents through OpenDir and the lookups; 24 trees with link cycles inside and outside the tree, directories linking to themselves / their parents / each other, links to fifos and sockets, odd names, deep nesting, rule files that are directories / dangling links / fifos, and 66 degenerate rule lines at every position of a rule file, through Pack (all option sets) and a one-package bundle build. Inputs kept by coverage-guided fuzzing campaigns are replayed first in the parser and OpenDir phases; thorough adds native go test -fuzz runs (4e6 / 8e4 / 1.5e5 executions) of the parser, Unpack and OpenDir targets. A recovered panic, a dead worker (attributed to the case in progress) or a case without progress for the watchdog period is a violation. Round 8: a hang is reported only when the kernel's accounting shows the worker spinning or blocked, not merely slow on a busy machine; in every check a panic raised inside go-slug during an oracle is a violation.",
          "Only generated inputs are covered; a hang is decided by the driver's watchdog (25-120 s without case progress, cases normally take milliseconds).",
          "DESIGN.md §5 C19"),
  # id: (level category, technique, level text, level note, design ref)
